@@ -12,6 +12,9 @@ Description of a layout (plain picklable data):
                 kind "hw"    bus writes have no effect; the value is the input port `hw` (same width)
                 kind "flag"  single bit: set by writing '1' (in a strobed byte), cleared by the hardware side in the
                              clock in which input `clear` is '1'; visible on `port`
+                kinds "win_addr"/"win_data": state of the user handler of an AddrRange window (last written relative
+                             address / strobed merge of the written data); such a register has `words` > 1 and a
+                             `read_tag` (reads return read_tag | relative address)
             bits of a word not covered by any field read as zero.
             `cls` names the cohdl class family ("MemWord", "Word", "Register") - used only for finding keys.
     hw:     list of (input port, width, tuple of values the environment may drive)
@@ -214,4 +217,110 @@ L_NESTED = {
     "unmapped": [0x4],
 }
 
-LAYOUTS = {l["name"]: l for l in (L_MEMWORD, L_FIELDS, L_ARRAY, L_NESTED)}
+# ----------------------------------------------------------------------------------------------------------
+# L5  three-word AddrRange window (size not a power of two -> range-compare decode) directly followed by a MemWord
+#     handler (user code of the design): reads return C0DE0000 | relative address; writes record the relative address
+#     and merge the strobed bytes into one 32-bit "last data" register
+# ----------------------------------------------------------------------------------------------------------
+SRC_RANGE = HEADER + '''
+class Win(reg32.AddrRange, word_count=3):
+    def _config_(self, e):
+        self._e = e
+        self._last = Signal[BitVector[32]](Null)
+        self._la = Signal[Unsigned[4]](Null)
+
+    def _on_read_relative_(self, addr):
+        return BitVector[28]("1100000011011110000000000000") @ addr.bitvector
+
+    def _on_write_relative_(self, addr, data, mask):
+        self._la <<= addr
+        self._last <<= mask.apply(self._last, data)
+
+    def _impl_concurrent_(self):
+        self._e.o_win_addr <<= self._la
+        self._e.o_win_data <<= self._last
+
+
+class Map(reg32.AddrMap):
+    win: Win[0x0]
+    ctrl: reg32.MemWord[0xC]
+
+    def _config_(self, e):
+        self._e = e
+        self.win._config_(e)
+
+    def _impl_concurrent_(self):
+        self._e.o_ctrl <<= self.ctrl.raw
+
+
+class T(axi.addr_map_entity(addr_width=4)):
+    o_win_addr = Port.output(Unsigned[4])
+    o_win_data = Port.output(BitVector[32])
+    o_ctrl = Port.output(BitVector[32])
+
+    def architecture(self):
+        self.interface_connection().connect_addr_map(Map(self))
+'''
+
+L_RANGE = {
+    "name": "range",
+    "source": SRC_RANGE,
+    "regs": [
+        {"name": "win", "addr": 0x0, "words": 3, "cls": "AddrRange", "notify": [], "read_tag": 0xC0DE0000,
+         "fields": [{"name": "la", "hi": 3, "lo": 0, "kind": "win_addr", "port": "o_win_addr", "default": 0},
+                    {"name": "last", "hi": 31, "lo": 0, "kind": "win_data", "port": "o_win_data", "default": 0}]},
+        {"name": "ctrl", "addr": 0xC, "cls": "MemWord", "notify": [],
+         "fields": [{"name": "raw", "hi": 31, "lo": 0, "kind": "mem", "port": "o_ctrl", "default": 0}]},
+    ],
+    "hw": [],
+    "unmapped": [],
+}
+
+# ----------------------------------------------------------------------------------------------------------
+# L6  MemWord, two-word Memory at 0x4 (offset not a multiple of its size -> range-compare decode), MemWord at 0xC
+#     Memory: default configuration (separate memory processes, MaskMode.IMMEDIATE), zero initialised; from the
+#     bus it is two consecutive words whose strobed bytes are stored.  The array elements are exposed on ports.
+# ----------------------------------------------------------------------------------------------------------
+SRC_MEMORY = HEADER + '''
+class Map(reg32.AddrMap):
+    lo: reg32.MemWord[0x0]
+    mem: reg32.Memory[0x4:0xC]
+    hi: reg32.MemWord[0xC]
+
+    def _config_(self, e):
+        self._e = e
+        self.mem._config_(initial=Null)
+
+    def _impl_concurrent_(self):
+        self._e.o_lo <<= self.lo.raw
+        self._e.o_hi <<= self.hi.raw
+        self._e.o_m0 <<= self.mem._mem[0]
+        self._e.o_m1 <<= self.mem._mem[1]
+
+
+class T(axi.addr_map_entity(addr_width=4)):
+    o_lo = Port.output(BitVector[32])
+    o_hi = Port.output(BitVector[32])
+    o_m0 = Port.output(BitVector[32])
+    o_m1 = Port.output(BitVector[32])
+
+    def architecture(self):
+        self.interface_connection().connect_addr_map(Map(self))
+'''
+
+
+def _word(name, addr, cls, port):
+    return {"name": name, "addr": addr, "cls": cls, "notify": [],
+            "fields": [{"name": "raw", "hi": 31, "lo": 0, "kind": "mem", "port": port, "default": 0}]}
+
+
+L_MEMORY = {
+    "name": "memory",
+    "source": SRC_MEMORY,
+    "regs": [_word("lo", 0x0, "MemWord", "o_lo"), _word("mem[0]", 0x4, "Memory", "o_m0"),
+             _word("mem[1]", 0x8, "Memory", "o_m1"), _word("hi", 0xC, "MemWord", "o_hi")],
+    "hw": [],
+    "unmapped": [],
+}
+
+LAYOUTS = {l["name"]: l for l in (L_MEMWORD, L_FIELDS, L_ARRAY, L_NESTED, L_RANGE, L_MEMORY)}
